@@ -40,11 +40,16 @@ def directive(f):
     return f'/include "{p}"' if f["quoted"] else f"/include {p}"
 
 
+COMMENTS_IN_INCLUDES = [False]
+
+
 def materialise(f, directory, is_main, files):
     """write file f (and recursively its includes) below `directory`; returns the body text"""
     lines = []
     for it in f["items"]:
         if it["k"] == "e":
+            if COMMENTS_IN_INCLUDES[0] and not is_main and lines:
+                lines.append(f"    /* a comment in front of m{it['id']} */")
             lines.append("    " + ELEM.format(i=it["id"]))
         else:
             child = it["f"]
@@ -84,7 +89,9 @@ def prepare(cases, root):
         os.makedirs(src)
         files = []
         if c["fam"] == "shape":
+            COMMENTS_IN_INCLUDES[0] = bool(c.get("cmt"))
             text = materialise(c["f"], src, True, files)
+            COMMENTS_IN_INCLUDES[0] = False
             flat = flat_text(c["flat"])
             if c.get("enc", "utf8") != "utf8":
                 codec, bom = {"utf8bom": ("utf-8", b"\xef\xbb\xbf"), "utf16le_bom": ("utf-16-le", b"\xff\xfe"), "utf16be_bom": ("utf-16-be", b"\xfe\xff"),
